@@ -178,4 +178,121 @@ theorem join_append (sep : Char) (x : List (List Char)) (hx : x ≠ []) : ∀ pr
       simp [List.append_assoc]
 
 
+/-! ### Case mapping and trimming -/
+theorem char_eq_of_toNat {c d : Char} (h : c.toNat = d.toNat) : c = d := by
+  rw [← Char.ofNat_toNat c, ← Char.ofNat_toNat d, h]
+
+theorem toLower_toNat (c : Char) : c.toLower.toNat = if 65 ≤ c.toNat ∧ c.toNat ≤ 90 then c.toNat + 32 else c.toNat := by
+  simp only [Char.toLower]
+  split
+  · next h =>
+    simp only [UInt32.le_iff_toNat_le, seval, ge_iff_le] at h
+    have h' : 65 ≤ c.toNat ∧ c.toNat ≤ 90 := h
+    rw [if_pos h']
+    show (c.val + 32).toNat = c.val.toNat + 32
+    rw [UInt32.toNat_add]
+    have : c.val.toNat ≤ 90 := h.2
+    simp
+    omega
+  · next h =>
+    simp only [UInt32.le_iff_toNat_le, seval, ge_iff_le] at h
+    have h' : ¬ (65 ≤ c.toNat ∧ c.toNat ≤ 90) := h
+    rw [if_neg h']
+
+theorem goLowerChar_toNat (c : Char) : (goLowerChar c).toNat =
+    if c.toNat = 0x212a then 107 else if c.toNat = 0x130 then 105
+    else if 65 ≤ c.toNat ∧ c.toNat ≤ 90 then c.toNat + 32 else c.toNat := by
+  unfold goLowerChar
+  split
+  · rfl
+  · split
+    · rfl
+    · exact toLower_toNat c
+
+theorem goLowerChar_idem (c : Char) : goLowerChar (goLowerChar c) = goLowerChar c := by
+  apply char_eq_of_toNat
+  rw [goLowerChar_toNat (goLowerChar c), goLowerChar_toNat c]
+  split <;> (try split) <;> (try split) <;> (try split) <;> (try split) <;> (try split) <;> omega
+
+theorem isGoSpace_goLowerChar (c : Char) : isGoSpace (goLowerChar c) = isGoSpace c := by
+  have h := goLowerChar_toNat c
+  simp only [isGoSpace]
+  rw [h]
+  split
+  · next e => simp [e]
+  · split
+    · next e => simp [e]
+    · split
+      · next e1 e2 e3 =>
+        apply Bool.eq_iff_iff.mpr
+        simp only [Bool.or_eq_true, decide_eq_true_eq, Bool.and_eq_true]
+        omega
+      · rfl
+theorem dropWhile_idem {α} (p : α → Bool) (l : List α) : (l.dropWhile p).dropWhile p = l.dropWhile p := by
+  induction l with
+  | nil => rfl
+  | cons a l ih =>
+    simp only [List.dropWhile_cons]
+    split
+    · exact ih
+    · next h => simp [List.dropWhile_cons, h]
+
+theorem dropWhile_eq_self_of_head {α} (p : α → Bool) (l : List α) (h : ∀ x, l.head? = some x → p x = false) :
+    l.dropWhile p = l := by
+  cases l with
+  | nil => rfl
+  | cons a l => simp [List.dropWhile_cons, h a rfl]
+
+theorem head_dropWhile {α} (p : α → Bool) (l : List α) : ∀ x, (l.dropWhile p).head? = some x → p x = false := by
+  induction l with
+  | nil => intro x h; simp at h
+  | cons a l ih =>
+    intro x h
+    simp only [List.dropWhile_cons] at h
+    split at h
+    · exact ih x h
+    · next hp => simp at h; subst h; simpa using hp
+
+theorem trimRight_prefix (s : Str) : trimRight s <+: s := by
+  unfold trimRight
+  have := List.dropWhile_suffix isGoSpace (l := s.reverse)
+  have h2 := List.reverse_prefix.mpr this
+  simpa using h2
+
+theorem trimRight_idem (s : Str) : trimRight (trimRight s) = trimRight s := by
+  simp [trimRight, dropWhile_idem]
+
+theorem head_of_prefix {α} {l' l : List α} (h : l' <+: l) (hne : l' ≠ []) : l'.head? = l.head? := by
+  obtain ⟨t, rfl⟩ := h
+  cases l' with
+  | nil => exact absurd rfl hne
+  | cons a r => rfl
+
+theorem trimSpace_idem (s : Str) : trimSpace (trimSpace s) = trimSpace s := by
+  unfold trimSpace
+  have h1 : trimLeft (trimRight (trimLeft s)) = trimRight (trimLeft s) := by
+    unfold trimLeft
+    apply dropWhile_eq_self_of_head
+    intro x hx
+    by_cases hne : trimRight (List.dropWhile isGoSpace s) = []
+    · rw [hne] at hx; simp at hx
+    · rw [head_of_prefix (trimRight_prefix _) hne] at hx
+      exact head_dropWhile isGoSpace s x hx
+  rw [h1, trimRight_idem]
+
+theorem trimSpace_map (f : Char → Char) (hf : ∀ c, isGoSpace (f c) = isGoSpace c) (s : Str) :
+    trimSpace (s.map f) = (trimSpace s).map f := by
+  have hc : isGoSpace ∘ f = isGoSpace := funext hf
+  simp only [trimSpace, trimLeft, trimRight, List.dropWhile_map, hc, ← List.map_reverse]
+
+theorem goLower_idem (s : Str) : goLower (goLower s) = goLower s := by
+  simp [goLower, List.map_map, Function.comp_def, goLowerChar_idem]
+
+/-- `TagList`'s normaliser is idempotent -/
+theorem normTag_idem (s : Str) : goLower (trimSpace (goLower (trimSpace s))) = goLower (trimSpace s) := by
+  have := trimSpace_map goLowerChar isGoSpace_goLowerChar (trimSpace s)
+  unfold goLower at *
+  rw [this, trimSpace_idem, List.map_map]
+  simp [Function.comp_def, goLowerChar_idem]
+
 end Jwt
